@@ -72,6 +72,19 @@ Record Inv (s : sys) : Prop := {
   inv_r : suffix (rlog s) (plog s);
   inv_o : suffix (olog s) (plog s)
 }.
+Lemma log_eqb_eq a b : log_eqb a b = true -> a = b.
+Proof.
+  revert b. induction a as [|x a IH]; intros [|y b]; cbn [log_eqb]; try discriminate; [reflexivity|].
+  intros H. apply andb_true_iff in H. destruct H as [H Hl]. apply andb_true_iff in H. destruct H as [H H4].
+  apply andb_true_iff in H. destruct H as [H H3]. apply andb_true_iff in H. destruct H as [H1 H2].
+  apply N.eqb_eq in H1. apply N.eqb_eq in H2. apply N.eqb_eq in H3. apply N.eqb_eq in H4.
+  rewrite (IH _ Hl). destruct x, y; cbn in *; subst. reflexivity.
+Qed.
+Lemma log_eqb_refl a : log_eqb a a = true.
+Proof. induction a as [|x a IH]; cbn [log_eqb]; [reflexivity|]. rewrite !N.eqb_refl, IH. reflexivity. Qed.
+Lemma can_handoff_spec s : can_handoff s = true -> ohalt s = None /\ olog s = plog s.
+Proof. unfold can_handoff. destruct (ohalt s); [discriminate|]. intros H. split; [reflexivity|apply log_eqb_eq, H]. Qed.
+
 Lemma inv_init : Inv init.
 Proof. split; cbn; [exact I|apply suffix_refl|apply suffix_refl]. Qed.
 
@@ -104,7 +117,7 @@ Proof. unfold release_primary. destruct (holds _ _); cbn; tauto. Qed.
 Lemma step_log s e s' c : step s e = (s', c) ->
   plog s' = plog s \/ exists x, plog s' = x :: plog s /\ extends (plog s) x = true.
 Proof.
-  destruct e as [id d|post| |post d|sent| |id post|post d| ]; cbn [step]; unfold restart.
+  destruct e as [id d|post| |post d|sent| |id post|post d| | ]; cbn [step]; unfold restart.
   - destruct (grant s id) as [s1 r] eqn:Eg. apply grant_spec in Eg. destruct Eg as [Ep _].
     destruct r as [l|]; [|intros H; inversion H; subst; left; exact Ep].
     destruct (negb d); [intros H; inversion H; subst; left; exact Ep|].
@@ -120,7 +133,7 @@ Proof.
     + apply forward_refused in Ef. subst s1. cbn [negb]. intros H; inversion H; subst. left; reflexivity.
   - destruct (rlock s) as [[id g]|]; [|intros H; inversion H; subst; left; reflexivity].
     destruct sent; intros H; inversion H; subst; left; [|reflexivity].
-    destruct (release_primary_spec {| plog := plog s; phalt := phalt s; rlock := None; rlog := rlog s; olog := olog s |} id) as [E _]. exact E.
+    destruct (release_primary_spec {| plog := plog s; phalt := phalt s; rlock := None; rlog := rlog s; olog := olog s; ohalt := ohalt s |} id) as [E _]. exact E.
   - intros H; inversion H; subst; left; reflexivity.
   - destruct (forward s id _) as [s1 ok] eqn:Ef. destruct ok; intros H; inversion H; subst.
     + apply forward_spec in Ef. destruct Ef as [_ [Hx [Hp _]]]. right; eexists; split; [exact Hp|exact Hx].
@@ -130,6 +143,8 @@ Proof.
     + apply forward_spec in Ef. destruct Ef as [_ [Hx [Hp _]]].
       destruct d; cbn [negb]; intros H; inversion H; subst; cbn; right; eexists; (split; [exact Hp|exact Hx]).
     + apply forward_refused in Ef. subst s1. cbn [negb]. intros H; inversion H; subst. left; reflexivity.
+  - destruct (can_handoff s) eqn:Eh; intros H; inversion H; subst; left; [|reflexivity].
+    apply can_handoff_spec in Eh. destruct Eh as [_ Eo]. cbn. exact Eo.
   - intros H; inversion H; subst; left; reflexivity.
 Qed.
 
@@ -138,7 +153,7 @@ Lemma step_rlog s e s' c : step s e = (s', c) ->
   (rlog s' = rlog s) \/
   (exists x, rlog s' = x :: rlog s /\ plog s' = x :: plog s /\ extends (rlog s) x = true /\ extends (plog s) x = true).
 Proof.
-  destruct e as [id d|post| |post d|sent| |id post|post d| ]; cbn [step]; unfold restart.
+  destruct e as [id d|post| |post d|sent| |id post|post d| | ]; cbn [step]; unfold restart.
   - destruct (grant s id) as [s1 r] eqn:Eg. apply grant_spec in Eg. destruct Eg as [_ [Er _]].
     destruct r as [l|]; [|intros H; inversion H; subst; left; exact Er].
     destruct (negb d); [intros H; inversion H; subst; left; exact Er|].
@@ -155,7 +170,7 @@ Proof.
     + apply forward_refused in Ef. subst s1. cbn [negb]. intros H; inversion H; subst. left; reflexivity.
   - destruct (rlock s) as [[id g]|]; [|intros H; inversion H; subst; left; reflexivity].
     destruct sent; intros H; inversion H; subst; left; [|reflexivity].
-    destruct (release_primary_spec {| plog := plog s; phalt := phalt s; rlock := None; rlog := rlog s; olog := olog s |} id) as [_ [E _]]. exact E.
+    destruct (release_primary_spec {| plog := plog s; phalt := phalt s; rlock := None; rlog := rlog s; olog := olog s; ohalt := ohalt s |} id) as [_ [E _]]. exact E.
   - intros H; inversion H; subst; left; reflexivity.
   - destruct (forward s id _) as [s1 ok] eqn:Ef. destruct ok; intros H; inversion H; subst.
     + apply forward_spec in Ef. left. tauto.
@@ -167,12 +182,13 @@ Proof.
       * right. eexists. split; [rewrite Hr; reflexivity|]. split; [exact Hp|]. split; [apply next_entry_extends|exact Hx].
       * left. exact Hr.
     + apply forward_refused in Ef. subst s1. cbn [negb]. intros H; inversion H; subst. left; reflexivity.
+  - destruct (can_handoff s); intros H; inversion H; subst; left; reflexivity.
   - intros H; inversion H; subst; left; reflexivity.
 Qed.
 
 Lemma step_olog s e s' c : step s e = (s', c) -> olog s' = olog s.
 Proof.
-  destruct e as [id d|post| |post d|sent| |id post|post d| ]; cbn [step]; unfold restart.
+  destruct e as [id d|post| |post d|sent| |id post|post d| | ]; cbn [step]; unfold restart.
   - destruct (grant s id) as [s1 r] eqn:Eg. apply grant_spec in Eg. destruct Eg as [_ [_ [Eo _]]].
     destruct r as [l|]; [|intros H; inversion H; subst; exact Eo].
     destruct (negb d); [intros H; inversion H; subst; exact Eo|].
@@ -187,7 +203,7 @@ Proof.
     + apply forward_refused in Ef. subst s1. cbn [negb]. intros H; inversion H; subst. reflexivity.
   - destruct (rlock s) as [[id g]|]; [|intros H; inversion H; subst; reflexivity].
     destruct sent; intros H; inversion H; subst; [|reflexivity].
-    destruct (release_primary_spec {| plog := plog s; phalt := phalt s; rlock := None; rlog := rlog s; olog := olog s |} id) as [_ [_ [E _]]]. exact E.
+    destruct (release_primary_spec {| plog := plog s; phalt := phalt s; rlock := None; rlog := rlog s; olog := olog s; ohalt := ohalt s |} id) as [_ [_ [E _]]]. exact E.
   - intros H; inversion H; subst; reflexivity.
   - destruct (forward s id _) as [s1 ok] eqn:Ef. destruct ok; intros H; inversion H; subst.
     + apply forward_spec in Ef. tauto.
@@ -197,6 +213,8 @@ Proof.
     + apply forward_spec in Ef. destruct Ef as [_ [_ [_ [_ [_ [_ Ho]]]]]].
       destruct d; cbn [negb]; intros H; inversion H; subst; cbn; exact Ho.
     + apply forward_refused in Ef. subst s1. cbn [negb]. intros H; inversion H; subst. reflexivity.
+  - destruct (can_handoff s) eqn:Eh; intros H; inversion H; subst; [|reflexivity].
+    apply can_handoff_spec in Eh. destruct Eh as [_ Eo]. cbn. symmetry. exact Eo.
   - intros H; inversion H; subst; reflexivity.
 Qed.
 
@@ -217,10 +235,16 @@ Proof.
 Qed.
 
 (* ---------- the stream ---------- *)
-Lemma stream_r_plog s : plog (stream_r s) = plog s /\ olog (stream_r s) = olog s /\ phalt (stream_r s) = phalt s.
+Lemma stream_r_plog s : plog (stream_r s) = plog s /\ olog (stream_r s) = olog s /\ phalt (stream_r s) = phalt s /\ ohalt (stream_r s) = ohalt s.
 Proof. unfold stream_r. destruct (find_tx _ _) as [e|]; [destruct (_ =? _)|]; cbn; tauto. Qed.
-Lemma stream_o_plog s : plog (stream_o s) = plog s /\ rlog (stream_o s) = rlog s /\ phalt (stream_o s) = phalt s /\ rlock (stream_o s) = rlock s.
-Proof. unfold stream_o. destruct (find_tx _ _) as [e|]; [destruct (_ =? _)|]; cbn; tauto. Qed.
+Lemma stream_o_stuck s p : ohalt s = Some p -> stream_o s = s.
+Proof. intros H. unfold stream_o. rewrite H. reflexivity. Qed.
+Lemma stream_o_plog s : plog (stream_o s) = plog s /\ rlog (stream_o s) = rlog s /\ phalt (stream_o s) = phalt s /\ rlock (stream_o s) = rlock s /\
+  ohalt (stream_o s) = ohalt s.
+Proof.
+  destruct (ohalt s) as [p|] eqn:En; [rewrite (stream_o_stuck _ _ En); tauto|].
+  unfold stream_o. rewrite En. destruct (find_tx _ _) as [e|]; [destruct (_ =? _)|]; cbn; tauto.
+Qed.
 
 Lemma stream_r_spec s : Inv s ->
   (rlog s = plog s /\ stream_r s = s) \/
@@ -232,15 +256,15 @@ Proof.
   - right. destruct (next_of_suffix _ _ Hc Hr E) as [x [e [Hp [Hf He]]]]. exists x, e. split; [exact Hp|].
     unfold stream_r. rewrite Hf, He, N.eqb_refl. cbn. tauto.
 Qed.
-Lemma stream_o_spec s : Inv s ->
+Lemma stream_o_spec s : Inv s -> ohalt s = None ->
   (olog s = plog s /\ stream_o s = s) \/
   (exists x e, plog s = x ++ e :: olog s /\ olog (stream_o s) = e :: olog s).
 Proof.
-  intros [Hc Hr Ho]. destruct (list_eq_dec (fun a b : entry => ltac:(decide equality; apply N.eq_dec)) (olog s) (plog s)) as [E|E].
-  - left. split; [exact E|]. unfold stream_o. rewrite E.
+  intros [Hc Hr Ho] Hn. destruct (list_eq_dec (fun a b : entry => ltac:(decide equality; apply N.eq_dec)) (olog s) (plog s)) as [E|E].
+  - left. split; [exact E|]. unfold stream_o. rewrite Hn, E.
     rewrite find_tx_none; [reflexivity|exact Hc|]. rewrite (chain_len _ Hc). lia.
   - right. destruct (next_of_suffix _ _ Hc Ho E) as [x [e [Hp [Hf He]]]]. exists x, e. split; [exact Hp|].
-    unfold stream_o. rewrite Hf, He, N.eqb_refl. cbn. reflexivity.
+    unfold stream_o. rewrite Hn, Hf, He, N.eqb_refl. cbn. reflexivity.
 Qed.
 
 Lemma stream_r_inv s : Inv s -> Inv (stream_r s).
@@ -250,37 +274,42 @@ Proof.
 Qed.
 Lemma stream_o_inv s : Inv s -> Inv (stream_o s).
 Proof.
-  intros HI. destruct (stream_o_plog s) as [Ep [Er _]]. destruct (stream_o_spec s HI) as [[_ ->]|[x [e [Hp Ho]]]]; [exact HI|].
+  intros HI. destruct (ohalt s) as [p|] eqn:En; [rewrite (stream_o_stuck _ _ En); exact HI|].
+  destruct (stream_o_plog s) as [Ep [Er _]]. destruct (stream_o_spec s HI En) as [[_ ->]|[x [e [Hp Ho]]]]; [exact HI|].
   destruct HI as [Hc Hr _]. split; rewrite ?Ep, ?Er; [exact Hc|exact Hr|]. rewrite Ho, Hp. exists x. reflexivity.
 Qed.
 Lemma settle_inv n s : Inv s -> Inv (settle n s).
 Proof. revert s. induction n as [|n IH]; intros s H; cbn [settle]; [exact H|]. apply IH, stream_o_inv, stream_r_inv, H. Qed.
-Lemma settle_plog n s : plog (settle n s) = plog s /\ phalt (settle n s) = phalt s.
+Lemma settle_plog n s : plog (settle n s) = plog s /\ phalt (settle n s) = phalt s /\ ohalt (settle n s) = ohalt s.
 Proof.
   revert s. induction n as [|n IH]; intros s; cbn [settle]; [tauto|].
-  destruct (IH (stream_o (stream_r s))) as [-> ->].
-  destruct (stream_o_plog (stream_r s)) as [-> [_ [-> _]]]. destruct (stream_r_plog s) as [-> [_ ->]]. tauto.
+  destruct (IH (stream_o (stream_r s))) as [-> [-> ->]].
+  destruct (stream_o_plog (stream_r s)) as [-> [_ [-> [_ ->]]]]. destruct (stream_r_plog s) as [-> [_ [-> ->]]]. tauto.
 Qed.
 
-(* each round brings a lagging follower one entry closer *)
+(* each round brings a lagging follower one entry closer; a former primary that still holds its own halt lock
+   does not move *)
 Definition lag (a b : log) : nat := length b - length a.
-Lemma settle_converges n s : Inv s -> (lag (rlog s) (plog s) <= n)%nat -> (lag (olog s) (plog s) <= n)%nat ->
-  rlog (settle n s) = plog s /\ olog (settle n s) = plog s.
+Lemma settle_converges n s : Inv s -> (lag (rlog s) (plog s) <= n)%nat -> (ohalt s = None -> (lag (olog s) (plog s) <= n)%nat) ->
+  rlog (settle n s) = plog s /\ (ohalt s = None -> olog (settle n s) = plog s).
 Proof.
   revert s. induction n as [|n IH]; intros s HI Hr Ho; cbn [settle].
-  - destruct HI as [_ Sr So]. unfold lag in *. split; apply suffix_same_len; try assumption.
-    + pose proof (suffix_len _ _ Sr). lia.
-    + pose proof (suffix_len _ _ So). lia.
+  - destruct HI as [_ Sr So]. unfold lag in *. split.
+    + apply suffix_same_len; [assumption|]. pose proof (suffix_len _ _ Sr). lia.
+    + intros Hn. specialize (Ho Hn). apply suffix_same_len; [assumption|]. pose proof (suffix_len _ _ So). lia.
   - set (s1 := stream_r s). set (s2 := stream_o s1).
     assert (Inv s1) as H1 by (apply stream_r_inv; exact HI).
     assert (Inv s2) as H2 by (apply stream_o_inv; exact H1).
-    destruct (stream_r_plog s) as [Ep1 [Eo1 _]]. destruct (stream_o_plog s1) as [Ep2 [Er2 _]]. fold s1 in Ep1, Eo1. fold s2 in Ep2, Er2.
+    destruct (stream_r_plog s) as [Ep1 [Eo1 [_ Eh1]]]. destruct (stream_o_plog s1) as [Ep2 [Er2 [_ [_ Eh2]]]].
+    fold s1 in Ep1, Eo1, Eh1. fold s2 in Ep2, Er2, Eh2.
     assert (plog s2 = plog s) as Ep by congruence.
-    rewrite <- Ep. apply IH; [exact H2| |].
+    assert (ohalt s2 = ohalt s) as Eh by congruence.
+    rewrite <- Ep, <- Eh. apply IH; [exact H2| |].
     + rewrite Er2, Ep2. unfold lag in *. destruct (stream_r_spec s HI) as [[E Es]|[x [e [Hp [Hr' _]]]]].
       * fold s1 in Es. rewrite Es, E. lia.
       * fold s1 in Hr'. rewrite Hr', Ep1, Hp, app_length. cbn [length]. rewrite Hp, app_length in Hr. cbn [length] in Hr. lia.
-    + unfold lag in *. destruct (stream_o_spec s1 H1) as [[E Es]|[x [e [Hp Ho']]]].
+    + intros Hn2. assert (ohalt s1 = None) as Hn1 by congruence. assert (ohalt s = None) as Hn by congruence. specialize (Ho Hn).
+      unfold lag in *. destruct (stream_o_spec s1 H1 Hn1) as [[E Es]|[x [e [Hp Ho']]]].
       * fold s2 in Es. rewrite Es, E. lia.
       * fold s2 in Ho'. rewrite Ho', Ep2, Hp, app_length. cbn [length]. rewrite Eo1 in *. rewrite <- Ep1 in Ho. rewrite Hp, app_length in Ho. cbn [length] in Ho. lia.
 Qed.
@@ -291,13 +320,15 @@ Proof.
   assert (s' = settle (S (length (plog s1))) s1) as -> by congruence.
   apply (settle_inv (S (length (plog s1))) s1). eapply step_inv; eassumption.
 Qed.
-(* after every event and the stream that follows it, both replicas hold the primary's whole history *)
-Lemma step_settled_converged s e s' c : Inv s -> step_settled s e = (s', c) -> rlog s' = plog s' /\ olog s' = plog s'.
+(* after every event and the stream that follows it, the replicas hold the primary's whole history - except a former
+   primary that still holds the halt lock it had granted: it cannot follow until that lock expires *)
+Lemma step_settled_converged s e s' c : Inv s -> step_settled s e = (s', c) ->
+  rlog s' = plog s' /\ (ohalt s' = None -> olog s' = plog s').
 Proof.
   unfold step_settled. destruct (step s e) as [s1 c1] eqn:Es. intros HI H.
   assert (s' = settle (S (length (plog s1))) s1) as -> by congruence. clear H.
-  destruct (settle_plog (S (length (plog s1))) s1) as [-> _].
-  apply settle_converges; [eapply step_inv; eassumption| |]; unfold lag; lia.
+  destruct (settle_plog (S (length (plog s1))) s1) as [-> [_ ->]].
+  apply settle_converges; [eapply step_inv; eassumption| |]; unfold lag; intros; lia.
 Qed.
 Lemma run_inv es : forall s, Inv s -> Inv (final s es).
 Proof.
@@ -319,7 +350,7 @@ Lemma halted_log_moves_only_by_holder s e s' c id p :
   phalt s = Some (id, p) -> step s e = (s', c) -> plog s' <> plog s ->
   (exists post d, (e = ECommit post d \/ e = ECommitWal post d) /\ holds (rlock s) id = true) \/ (exists post, e = EForeign id post).
 Proof.
-  intros Hh. destruct e as [i d|post| |post d|sent| |i post|post d| ]; cbn [step]; unfold restart.
+  intros Hh. destruct e as [i d|post| |post d|sent| |i post|post d| | ]; cbn [step]; unfold restart.
   - destruct (grant s i) as [s1 r] eqn:Eg. apply grant_spec in Eg. destruct Eg as [Ep _].
     destruct r as [l|]; [|intros H; inversion H; subst; congruence].
     destruct (negb d); [intros H; inversion H; subst; congruence|].
@@ -334,7 +365,7 @@ Proof.
     + apply forward_refused in Ef. subst s1. cbn [negb]. intros H; inversion H; subst. congruence.
   - destruct (rlock s) as [[i g]|]; [|intros H; inversion H; subst; congruence].
     destruct sent; intros H; inversion H; subst; [|cbn; congruence].
-    destruct (release_primary_spec {| plog := plog s; phalt := phalt s; rlock := None; rlog := rlog s; olog := olog s |} i) as [E _].
+    destruct (release_primary_spec {| plog := plog s; phalt := phalt s; rlock := None; rlog := rlog s; olog := olog s; ohalt := ohalt s |} i) as [E _].
     rewrite E. cbn. congruence.
   - intros H; inversion H; subst; cbn; congruence.
   - destruct (forward s i _) as [s1 ok] eqn:Ef. destruct ok; intros H; inversion H; subst.
@@ -346,6 +377,8 @@ Proof.
     + apply forward_spec in Ef. destruct Ef as [Hho _]. intros _ _. left. exists post, d. split; [right; reflexivity|].
       rewrite Hh in Hho. cbn [holds] in *. rewrite N.eqb_sym. exact Hho.
     + apply forward_refused in Ef. subst s1. cbn [negb]. intros H; inversion H; subst. cbn. congruence.
+  - destruct (can_handoff s) eqn:Eh; intros H; inversion H; subst; [|congruence].
+    apply can_handoff_spec in Eh. destruct Eh as [_ Eo]. cbn. congruence.
   - intros H; inversion H; subst; cbn; congruence.
 Qed.
 
@@ -462,12 +495,53 @@ Proof.
   intros H. inversion H. subst. contradiction.
 Qed.
 
-Theorem reachable_converged es : forall s0, Inv s0 -> rlog s0 = plog s0 -> olog s0 = plog s0 ->
-  Inv (final s0 es) /\ rlog (final s0 es) = plog (final s0 es) /\ olog (final s0 es) = plog (final s0 es).
+Theorem reachable_converged es : forall s0, Inv s0 -> rlog s0 = plog s0 -> (ohalt s0 = None -> olog s0 = plog s0) ->
+  Inv (final s0 es) /\ rlog (final s0 es) = plog (final s0 es) /\
+  (ohalt (final s0 es) = None -> olog (final s0 es) = plog (final s0 es)).
 Proof.
   induction es as [|e es IH]; intros s0 HI Hr Ho; cbn [final]; [tauto|].
   destruct (step_settled s0 e) as [s1 c] eqn:E. cbn [fst].
   destruct (step_settled_converged _ _ _ _ HI E) as [A B]. apply IH; [eapply step_settled_inv; eassumption|exact A|exact B].
+Qed.
+
+(* ---------- primary change while a halt lock is held ---------- *)
+(* the hand-over is accepted exactly when the target is connected (holds no halt lock of its own) and caught up;
+   the new primary has the same history, has granted no lock; the former primary keeps the one it had granted *)
+Lemma handoff_spec s s' : step s EHandoff = (s', c_ok) ->
+  ohalt s = None /\ olog s = plog s /\ plog s' = plog s /\ olog s' = plog s /\ phalt s' = None /\ ohalt s' = phalt s /\
+  rlock s' = rlock s /\ rlog s' = rlog s.
+Proof.
+  cbn [step]. destruct (can_handoff s) eqn:Eh; intros H; inversion H; subst.
+  apply can_handoff_spec in Eh. destruct Eh as [En Eo]. cbn. rewrite Eo. tauto.
+Qed.
+Lemma handoff_refused s s' : step s EHandoff = (s', c_refused) -> s' = s.
+Proof. cbn [step]. destruct (can_handoff s); intros H; inversion H; reflexivity. Qed.
+Lemma handoff_accepted_when_converged s : ohalt s = None -> olog s = plog s -> snd (step s EHandoff) = c_ok.
+Proof. intros Hn Ho. cbn [step]. unfold can_handoff. rewrite Hn, Ho, log_eqb_refl. reflexivity. Qed.
+Lemma handoff_to_stuck_node_refused s p : ohalt s = Some p -> step s EHandoff = (s, c_refused).
+Proof. intros H. cbn [step]. unfold can_handoff. rewrite H. reflexivity. Qed.
+(* the new primary can write at once; the former holder cannot publish any more: whatever it forwards, under any
+   lock id, is refused and changes nothing *)
+Lemma handoff_new_primary_free s s' post d : step s EHandoff = (s', c_ok) ->
+  snd (step s' (ELocalWrite post)) = c_ok /\ step s' (ECommit post d) = (s', c_refused) /\
+  (forall id e, forward s' id e = (s', false)).
+Proof.
+  intros H. apply handoff_spec in H. destruct H as [_ [_ [_ [_ [Hp _]]]]].
+  split; [apply free_primary_writes; exact Hp|]. split; [apply former_holder_cannot_publish; exact Hp|].
+  intros id e. apply forward_without_lock_refused. rewrite Hp. reflexivity.
+Qed.
+(* the former primary does not follow the new one while the lock it had granted is still held; expiry frees it *)
+Lemma former_primary_stuck s p : ohalt s = Some p -> stream_o s = s.
+Proof. exact (stream_o_stuck s p). Qed.
+Lemma expire_unsticks s : ohalt (fst (step s EExpire)) = None /\ phalt (fst (step s EExpire)) = None.
+Proof. cbn. tauto. Qed.
+Lemma expire_settled_converges s s' c : Inv s -> step_settled s EExpire = (s', c) -> rlog s' = plog s' /\ olog s' = plog s'.
+Proof.
+  intros HI H. destruct (step_settled_converged _ _ _ _ HI H) as [A B]. split; [exact A|]. apply B.
+  unfold step_settled in H. destruct (step s EExpire) as [s1 c1] eqn:Es.
+  assert (s' = settle (S (length (plog s1))) s1) as -> by congruence.
+  destruct (settle_plog (S (length (plog s1))) s1) as [_ [_ ->]].
+  cbn [step] in Es. injection Es as <- _. reflexivity.
 Qed.
 
 (* ---------- what "the halt lock pins the write lock" means on the lock table (C11's model) ---------- *)
